@@ -89,3 +89,32 @@ fn f10_l1boundsum_new_len_max() {
         Ok(Err(_)) => {}
     }
 }
+
+#[test]
+fn f6_prio3_verify_init_short_proof_share() {
+    use prio::codec::ParameterizedDecode;
+    use prio::field::{Field64, FieldElement};
+    use prio::vdaf::prio3::{Prio3InputShare, Prio3PublicShare};
+    // C16: a leader input share whose proof share has the wrong length must be an error, not a panic
+    let vdaf = Prio3::new_count(2).unwrap();
+    let public = Prio3PublicShare::get_decoded_with_param(&vdaf, &[]).unwrap();
+    let share = Prio3InputShare::Leader { measurement_share: vec![Field64::zero()], proofs_share: vec![Field64::zero(); 2], joint_rand_blind: None };
+    let r = std::panic::catch_unwind(|| vdaf.verify_init(&[0u8; 32], b"ctx", 0, &(), &[0u8; 16], &public, &share).is_err());
+    assert!(matches!(r, Ok(true)), "verify_init on a leader share with a short proof share: {:?}", r.map_err(|_| "panicked"));
+}
+
+#[test]
+fn f6b_prio3_verify_init_missing_blind() {
+    use prio::field::Field128;
+    use prio::vdaf::prio3::Prio3InputShare;
+    // C16: a leader input share without the joint-randomness blind its type needs must be an error, not a panic
+    let vdaf = Prio3::new_histogram(2, 4, 2).unwrap();
+    let nonce = [0u8; 16];
+    let (public, shares) = vdaf.shard(b"ctx", &1usize, &nonce).unwrap();
+    let broken = match &shares[0] {
+        Prio3InputShare::Leader { measurement_share, proofs_share, .. } => Prio3InputShare::<Field128, 32>::Leader { measurement_share: measurement_share.clone(), proofs_share: proofs_share.clone(), joint_rand_blind: None },
+        _ => unreachable!(),
+    };
+    let r = std::panic::catch_unwind(|| vdaf.verify_init(&[0u8; 32], b"ctx", 0, &(), &nonce, &public, &broken).is_err());
+    assert!(matches!(r, Ok(true)), "verify_init on a leader share without blind: {:?}", r.map_err(|_| "panicked"));
+}
